@@ -114,7 +114,7 @@ int main(int argc, char** argv) {
                     else r = run_comb(N, seed0 + s, dens[s % 8]); }
                 ++st->paths; if (r < 0) ++st->stuck; else st->steps += r;
             }
-        });
+        }, &c0);
     }
     fclose(out);
     printf("{\"paths\":%ld,\"steps\":%ld,\"stuck\":%ld,\"crashed\":%ld,\"wall\":%.2f}\n", st->paths, st->steps, st->stuck, crashed, tm.s());
